@@ -164,7 +164,7 @@ CLAIMED["C13"] = dict(
 CLAIMED["C17"] = dict(
     text="Coq: in the materializer's three-layer context a name resolves to data, then context, then transforms, and the reported source is the layer that "
          "supplied it (all layer contents/overlaps); '.' is exactly the available variables not used on the lhs, in order; for formulas of looked-up "
-         "names each name is sufficient and necessary for factor evaluation in the build model. Layered-mapping, parser ('.') and build (missing "
+         "names the reported list (`required_vars`, equal to Formula.required_variables on every case) is sufficient on the data restricted to exactly those columns and each entry is necessary (single and structured formulas), an unreported column can be removed freely. Layered-mapping, parser ('.') and build (missing "
          "variables) models are evaluated in Coq on the implementation's cases; sufficiency/necessity before and after materialization, sources "
          "and '.' are checked directly, including Python-expression factors.",
     note="Coq kernel + vm_compute; which names a Python fragment needs is CPython behaviour: validated by materializing on restricted data, not proved",
